@@ -881,7 +881,13 @@ def _skip_event(*events, **kwargs):
         after = getattr(e, 'entered', None) or {}
         for p, what in subpaths:
             old = before[(p, what)] if (p, what) in before else _reached(e.old, p, what)
-            new = after[(p, what)] if (p, what) in after else _reached(e.new, p, what)
+            new = _reached(e.new, p, what)
+            if (p, what) in after:
+                if after[(p, what)] is not new and not Comparator.is_equal(after[(p, what)], new):
+                    # changed since the object was attached: its own
+                    # watchers have announced that (or will)
+                    continue
+                new = after[(p, what)]
             if not Comparator.is_equal(old, new):
                 return False
     return True
@@ -3278,6 +3284,10 @@ class Parameters:
 
     def _call_watcher(self_, watcher, event):
         """Invoke the given watcher appropriately given an Event object."""
+        # (an internal watcher may decline an event outright)
+        wants = getattr(watcher.fn, '_wants', None)
+        if wants is not None and not wants(event):
+            return
         if self_._TRIGGER:
             pass
         elif watcher.onlychanged and (not self_._changed(event)):
@@ -3294,9 +3304,11 @@ class Parameters:
                 for p, what in _subpaths(event, keywords.get('what', 'value'), keywords['changed']) or []:
                     if (p, what) in reached:
                         continue
+                    # (the dependencies of the method follow the new object
+                    # only when the event is delivered: what changes on it
+                    # until then is not announced, nothing is recorded of it)
                     try:
                         reached[(p, what)] = _reached(event.old, p, what)
-                        entered[(p, what)] = _reached(event.new, p, what)
                     except Exception:
                         pass
             self_._events.append(_QueuedEvent.of(event, reached, watcher, entered))
@@ -3317,8 +3329,7 @@ class Parameters:
                 # One event per parameter: from the value held before the
                 # first queued assignment to the final value
                 event_dict = OrderedDict()
-                initial = {}
-                latest = {}
+                chains = {}
                 qualified = defaultdict(set)
                 queued_for = {}
                 for event in self_._events:
@@ -3327,26 +3338,32 @@ class Parameters:
                         qualified[id(event.watcher)].add(key)
                         queued_for[id(event.watcher)] = event.watcher
                     first = event_dict.get(key)
-                    if first is None:
-                        initial[key] = event.old
-                    elif event.old is not initial.get(key, event.old):
-                        # (no longer the first assignment of the batch)
-                        initial.pop(key, None)
-                    reached = dict(getattr(first, 'reached', None) or {})
-                    if key in initial:
-                        for path, value in (getattr(event, 'reached', None) or {}).items():
-                            reached.setdefault(path, value)
-                    # (and what was entered at the last one)
-                    new, entered = latest.get(key, (None, {}))
-                    if first is None or new is not event.new:
-                        entered = {}
-                    entered.update(getattr(event, 'entered', None) or {})
-                    latest[key] = (event.new, entered)
-                    if first is not None and (first.old is not event.old or reached):
+                    # For the internal watchers of sub-object dependencies:
+                    # what the dependent methods know. It starts as what
+                    # was reached through the object replaced first; when
+                    # an object is replaced showing something else than
+                    # when it was attached, its own watchers have announced
+                    # that meanwhile.
+                    reached = getattr(event, 'reached', None) or {}
+                    entered = getattr(event, 'entered', None) or {}
+                    chain = chains.get(key)
+                    if chain is None:
+                        chain = chains[key] = {'known': {}, 'attached': {}, 'entered': {},
+                                               'old': event.old, 'new': event.new}
+                    elif event.old is not chain['old'] or event.new is not chain['new']:
+                        # (the next assignment of the batch)
+                        chain.update(attached=chain['entered'], entered={}, old=event.old, new=event.new)
+                    for path, value in reached.items():
+                        if path not in chain['known'] or (
+                                path in chain['attached'] and chain['attached'][path] is not value
+                                and not Comparator.is_equal(chain['attached'][path], value)):
+                            chain['known'][path] = value
+                    chain['entered'].update(entered)
+                    if first is not None and (first.old is not event.old or chain['known']):
                         event = Event(what=event.what, name=event.name, obj=event.obj, cls=event.cls,
                                       old=first.old, new=event.new, type=event.type)
-                    if reached:
-                        event = _QueuedEvent.of(event, reached, entered=entered)
+                    if chain['known']:
+                        event = _QueuedEvent.of(event, dict(chain['known']), entered=dict(chain['entered']))
                     elif type(event) is not Event:
                         event = Event(*event)
                     event_dict[key] = event
